@@ -41,6 +41,8 @@ package entropy
 //@   loop 2 modifies freqs[*], alphabet[*]
 //@   loop 2 exitinvariant nfKeep(freqs)
 //@   loop 2 exitinvariant 0 <= alphabetSize && alphabetSize <= 256 && nfAlpha(freqs, alphabet, alphabetSize)
+//@   loop 2 exitinvariant sumold(freqs, rangeindex + 1, 256) == 0                                           #nothing-left-after-the-exit
+//@   loop 2 exitinvariant sum(freqs, 0, 256) == sumScaledFreq + sumold(freqs, rangeindex + 1, 256)         #sum-split-at-the-exit
 //@   loop 2 exitinvariant sum(freqs, 0, 256) == sumScaledFreq && 0 <= sumScaledFreq && sumScaledFreq <= 72057594037927936
 //@   loop 2 exitinvariant (alphabetSize > 0 ==> 0 <= idxMax && idxMax < 256 && freqs[idxMax] >= 1 && oldat(freqs, idxMax) > 0 && oldat(freqs, alphabet[0]) > 0) && (alphabetSize == 1 ==> sumScaledFreq == freqs[alphabet[0]])
 //@   loop 2 exitinvariant forall j :: 0 <= j && j < 256 ==> freqs[j] <= 281474976710656
